@@ -24,7 +24,7 @@ Theorem c17_run_is_model keys maxSize : c17_dom keys maxSize = true ->
 Proof.
   unfold c17_dom. rewrite !andb_true_iff, negb_true_iff, Z.eqb_neq, Z.leb_le.
   intros [[[Hok Hasc] Hne] Hms]. unfold c17_run.
-  destruct (forallb _ keys); [reflexivity|].
+  destruct (forallb _ keys && _); [reflexivity|].
   assert (keys <> []) by (intros ->; now apply Hne).
   symmetry. apply ShardByPrefix_exact; auto using keys_okb_ok, strict_ascb_ok.
 Qed.
